@@ -452,3 +452,344 @@ Proof.
   right. split; [exact F0|]. split; [exact Fk|]. exists sz. repeat split; assumption.
 Qed.
 End StepCreate.
+
+(* ====================================================================================================== *)
+(* 3. C11: the Chown / Lchown calls of every procedure                                                    *)
+(* ====================================================================================================== *)
+Definition is_chown (b : bcall) : bool := match b_op b with BChown | BLchown => true | _ => false end.
+Definition chown_like (b : bcall) : Prop := b_op b = BChown \/ b_op b = BLchown.
+Lemma is_chown_iff b : is_chown b = true <-> chown_like b.
+Proof. unfold is_chown, chown_like. destruct (b_op b); split; intros H; try discriminate H; try destruct H as [H|H]; try discriminate H; auto. Qed.
+
+(* same backend log *)
+Definition SB (s s' : srv) : Prop := blog s' = blog s.
+
+Ltac ldes :=
+  repeat (cbn [fst snd]; match goal with
+  | |- context [match ?x with _ => _ end] =>
+      lazymatch x with context [match _ with _ => _ end] => fail | _ => destruct x eqn:? end
+  end).
+
+Lemma SB_ac_get s p : SB s (fst (ac_get s p)). Proof. unfold SB, ac_get. ldes; reflexivity. Qed.
+Lemma SB_ac_put_negative s p : SB s (ac_put_negative s p). Proof. unfold SB, ac_put_negative. ldes; reflexivity. Qed.
+Lemma SB_dc_get s p : SB s (fst (dc_get s p)). Proof. unfold SB, dc_get. ldes; reflexivity. Qed.
+Lemma SB_dc_put s p n : SB s (dc_put s p n). Proof. unfold SB, dc_put. ldes; reflexivity. Qed.
+Lemma SB_dc_invalidate s p : SB s (dc_invalidate s p). Proof. unfold SB, dc_invalidate. ldes; reflexivity. Qed.
+Lemma SB_dc_invalidate_tree s p : SB s (dc_invalidate_tree s p). Proof. unfold SB, dc_invalidate_tree. ldes; reflexivity. Qed.
+Lemma SB_node_upd s h f : SB s (node_upd s h f). Proof. unfold SB, node_upd. ldes; reflexivity. Qed.
+Lemma SB_alloc s p a : SB s (fst (alloc s p a)).
+Proof. unfold SB, alloc. destruct (allocate path_eqb (hm s) p). reflexivity. Qed.
+
+Section Log.
+Variable Q : bcall -> Prop.
+Hypothesis HQ : forall b, is_chown b = false -> Q b.
+
+(* every backend call added between s and s' satisfies Q *)
+Definition LG (s s' : srv) : Prop := forall b, In b (blog s') -> In b (blog s) \/ Q b.
+Lemma LG_refl s : LG s s. Proof. intros b H. left. exact H. Qed.
+Lemma LG_trans a b c : LG a b -> LG b c -> LG a c.
+Proof. intros A B x Hx. destruct (B x Hx) as [H|H]; [apply A; exact H|right; exact H]. Qed.
+Lemma LG_SB s s' : SB s s' -> LG s s'. Proof. intros E b H. left. rewrite <- E. exact H. Qed.
+Lemma LG_logc s c : Q c -> LG s (logc s c).
+Proof. intros H b [<-|Hb]; [right; exact H|left; exact Hb]. Qed.
+Lemma LG_lift_unit s c r : Q c -> LG s (fst (lift_unit s c r)).
+Proof. intros H b [<-|Hb]; [right; exact H|left; exact Hb]. Qed.
+Lemma LG_do_lstat s p : LG s (fst (do_lstat s p)). Proof. apply LG_logc, HQ. reflexivity. Qed.
+Lemma LG_do_stat s p : LG s (fst (do_stat s p)). Proof. apply LG_logc, HQ. reflexivity. Qed.
+
+Ltac lfact E stmt tac := let H := fresh "R" in assert (H : stmt) by tac; rewrite E in H; cbn [fst] in H.
+Ltac lcollect :=
+  repeat match goal with
+  | E : ac_get ?s ?p = (_, _) |- _ => lfact E (LG s (fst (ac_get s p))) ltac:(apply LG_SB, SB_ac_get); clear E
+  | E : dc_get ?s ?p = (_, _) |- _ => lfact E (LG s (fst (dc_get s p))) ltac:(apply LG_SB, SB_dc_get); clear E
+  | E : alloc ?s ?p ?a = (_, _) |- _ => lfact E (LG s (fst (alloc s p a))) ltac:(apply LG_SB, SB_alloc); clear E
+  | E : do_lstat ?s ?p = (_, _) |- _ => lfact E (LG s (fst (do_lstat s p))) ltac:(apply LG_do_lstat); clear E
+  | E : do_stat ?s ?p = (_, _) |- _ => lfact E (LG s (fst (do_stat s p))) ltac:(apply LG_do_stat); clear E
+  end.
+Ltac qside := first [ assumption | apply HQ; reflexivity | solve [auto] ].
+Ltac lchain :=
+  cbn [fst snd];
+  repeat match goal with
+  | |- LG ?a ?a => apply LG_refl
+  | H : LG ?a ?b |- LG ?a ?b => exact H
+  | |- LG ?a (ac_put ?b _ _) => apply LG_trans with b; [|apply LG_SB; reflexivity]
+  | |- LG ?a (ac_put_negative ?b _) => apply LG_trans with b; [|apply LG_SB, SB_ac_put_negative]
+  | |- LG ?a (ac_invalidate ?b _) => apply LG_trans with b; [|apply LG_SB; reflexivity]
+  | |- LG ?a (ac_invalidate_tree ?b _) => apply LG_trans with b; [|apply LG_SB; reflexivity]
+  | |- LG ?a (ac_invalidate_neg_in_dir ?b _) => apply LG_trans with b; [|apply LG_SB; reflexivity]
+  | |- LG ?a (dc_put ?b _ _) => apply LG_trans with b; [|apply LG_SB, SB_dc_put]
+  | |- LG ?a (dc_invalidate ?b _) => apply LG_trans with b; [|apply LG_SB, SB_dc_invalidate]
+  | |- LG ?a (dc_invalidate_tree ?b _) => apply LG_trans with b; [|apply LG_SB, SB_dc_invalidate_tree]
+  | |- LG ?a (node_set ?b _ _) => apply LG_trans with b; [|apply LG_SB; reflexivity]
+  | |- LG ?a (node_upd ?b _ _) => apply LG_trans with b; [|apply LG_SB, SB_node_upd]
+  | |- LG ?a (with_fs ?b _) => apply LG_trans with b; [|apply LG_SB; reflexivity]
+  | |- LG ?a (with_conf ?b _) => apply LG_trans with b; [|apply LG_SB; reflexivity]
+  | |- LG ?a (invalidate_for_new ?b _ _) => unfold invalidate_for_new
+  | |- LG ?a (logc ?b ?c) => apply LG_trans with b; [|apply LG_logc; qside]
+  | |- LG ?a (fst (lift_unit ?b ?c ?r)) => apply LG_trans with b; [|apply LG_lift_unit; qside]
+  | H : LG ?b ?c |- LG ?a ?c => apply LG_trans with b; [|exact H]
+  end.
+
+Lemma LG_srv_lookup s p : LG s (fst (srv_lookup s p)).
+Proof. unfold srv_lookup. ldes; lcollect; lchain. Qed.
+Lemma LG_srv_getattr s p u g : LG s (fst (srv_getattr s p u g)).
+Proof. unfold srv_getattr. ldes; lcollect; lchain. Qed.
+Lemma LG_getattr_h s h p : LG s (fst (getattr_h s h p)).
+Proof. unfold getattr_h. ldes; apply LG_srv_getattr. Qed.
+
+Ltac lcollect2 :=
+  repeat match goal with
+  | E : srv_lookup ?s ?p = (_, _) |- _ => lfact E (LG s (fst (srv_lookup s p))) ltac:(apply LG_srv_lookup); clear E
+  | E : getattr_h ?s ?h ?p = (_, _) |- _ => lfact E (LG s (fst (getattr_h s h p))) ltac:(apply LG_getattr_h); clear E
+  | E : srv_getattr ?s ?p ?u ?g = (_, _) |- _ => lfact E (LG s (fst (srv_getattr s p u g))) ltac:(apply LG_srv_getattr); clear E
+  end; lcollect.
+
+Lemma LG_failed_reply s h d st_ dpre : LG s (fst (failed_reply s h d st_ dpre)).
+Proof. unfold failed_reply. ldes; lcollect2; lchain. Qed.
+Lemma LG_created_reply s h d p a dpre : LG s (fst (created_reply s h d p a dpre)).
+Proof. unfold created_reply. ldes; lcollect2; lchain. Qed.
+
+Ltac lchain2 :=
+  cbn [fst snd];
+  repeat first
+  [ match goal with
+    | |- LG ?a (fst (failed_reply ?b _ _ _ _)) => apply LG_trans with b; [|apply LG_failed_reply]
+    | |- LG ?a (fst (created_reply ?b _ _ _ _ _)) => apply LG_trans with b; [|apply LG_created_reply]
+    | |- LG ?a (fst (srv_lookup ?b _)) => apply LG_trans with b; [|apply LG_srv_lookup]
+    | |- LG ?a (fst (getattr_h ?b _ _)) => apply LG_trans with b; [|apply LG_getattr_h]
+    end
+  | progress lchain ].
+Ltac lhandler := cbv zeta; ldes; lcollect2; lchain2.
+
+Lemma LG_lookup_all d names : forall s, LG s (fst (lookup_all s d names)).
+Proof.
+  induction names as [|n r IH]; intros s; cbn [lookup_all]; [apply LG_refl|].
+  destruct (is_dot n || is_dotdot n || negb (sanitize_ok d n)); [apply IH|].
+  destruct (srv_lookup s (d ++ [n])) as [s1 lr] eqn:E.
+  pose proof (IH s1) as H1. destruct (lookup_all s1 d r) as [s2 rest]. cbn [fst] in H1.
+  lcollect2. destruct lr; cbn [fst]; lchain.
+Qed.
+Lemma LG_refresh_all l : forall s, LG s (fst (refresh_all s l)).
+Proof.
+  induction l as [|[p a] r IH]; intros s; cbn [refresh_all]; [apply LG_refl|].
+  destruct (ac_get s p) as [s0 x] eqn:E0. destruct (do_lstat s0 p) as [s1 li] eqn:E1.
+  lcollect2. destruct li as [fi|e].
+  - pose proof (IH (ac_put s1 p (attrs_of_info fi (na_fileid a) (na_uid a) (na_gid a)))) as H.
+    destruct (refresh_all _ r) as [s2 rest]. cbn [fst] in *. lchain.
+  - pose proof (IH s1) as H. destruct (refresh_all s1 r) as [s2 rest]. cbn [fst] in *. lchain.
+Qed.
+Lemma LG_alloc_all pg : forall s, LG s (fst (alloc_all s pg)).
+Proof.
+  induction pg as [|[ck [p a]] r IH]; intros s; cbn [alloc_all]; [apply LG_refl|].
+  destruct (alloc s p a) as [s1 fh] eqn:E. pose proof (IH s1) as H. destruct (alloc_all s1 r) as [s2 rest].
+  lcollect. cbn [fst] in *. lchain.
+Qed.
+Lemma LG_srv_readdir s d : LG s (fst (srv_readdir s d)).
+Proof.
+  unfold srv_readdir.
+  assert (Hhit : LG s (fst (if dir_on (conf s) then dc_get s d else (s, None)))).
+  { destruct (dir_on (conf s)); [apply LG_SB, SB_dc_get|apply LG_refl]. }
+  destruct (if dir_on (conf s) then dc_get s d else (s, None)) as [s0 hit]. cbn [fst snd] in *.
+  destruct hit as [names|].
+  - pose proof (LG_lookup_all d names s0) as H. destruct (lookup_all s0 d names) as [s1 l]. cbn [fst] in *. lchain.
+  - destruct (be_open (fs (logc s0 (bc BOpenR d))) d false) as [q|e]; cbn [fst]; [|lchain].
+    destruct (be_readdir _ q) as [ents|e]; cbn [fst]; [|lchain].
+    match goal with |- context [lookup_all ?st d ?nm] =>
+      pose proof (LG_lookup_all d nm st) as H; destruct (lookup_all st d nm) as [s4 l] end.
+    cbn [fst] in *. eapply LG_trans; [|exact H].
+    destruct (dir_on (conf (logc (logc s0 (bc BOpenR d)) (bc BReaddir d)))); lchain.
+Qed.
+
+(* ---------- the handlers without any Chown ---------- *)
+Lemma LG_handle_getattr s h : LG s (fst (handle_getattr s h)).
+Proof. unfold handle_getattr. lhandler. Qed.
+Lemma LG_handle_access s c h m : LG s (fst (handle_access s c h m)).
+Proof. unfold handle_access. lhandler. Qed.
+Lemma LG_handle_lookup s h n : LG s (fst (handle_lookup s h n)).
+Proof. unfold handle_lookup, current_attrs. lhandler. Qed.
+Lemma LG_handle_readlink s h : LG s (fst (handle_readlink s h)).
+Proof. unfold handle_readlink. lhandler. Qed.
+Lemma LG_handle_fsx s h f : LG s (fst (handle_fsx s h f)).
+Proof. unfold handle_fsx. lhandler. Qed.
+Lemma LG_handle_mnt s p : LG s (fst (handle_mnt s p)).
+Proof. unfold handle_mnt. lhandler. Qed.
+Lemma LG_handle_commit s h : LG s (fst (handle_commit s h)).
+Proof. unfold handle_commit. lhandler. Qed.
+Lemma LG_handle_read s h off cnt : LG s (fst (handle_read s h off cnt)).
+Proof. unfold handle_read. lhandler. Qed.
+Lemma LG_handle_readdir s h ck cnt : LG s (fst (handle_readdir s h ck cnt)).
+Proof.
+  unfold handle_readdir. cbv zeta. ldes; lcollect2;
+  repeat match goal with E : srv_readdir ?s ?d = (_, _) |- _ => lfact E (LG s (fst (srv_readdir s d))) ltac:(apply LG_srv_readdir); clear E end;
+  lchain2.
+Qed.
+Lemma LG_handle_readdirplus s h ck mc : LG s (fst (handle_readdirplus s h ck mc)).
+Proof.
+  unfold handle_readdirplus. cbv zeta. ldes; lcollect2;
+  repeat match goal with
+  | E : srv_readdir ?s ?d = (_, _) |- _ => lfact E (LG s (fst (srv_readdir s d))) ltac:(apply LG_srv_readdir); clear E
+  | E : refresh_all ?s ?l = (_, _) |- _ => lfact E (LG s (fst (refresh_all s l))) ltac:(apply LG_refresh_all); clear E
+  | E : alloc_all ?s ?l = (_, _) |- _ => lfact E (LG s (fst (alloc_all s l))) ltac:(apply LG_alloc_all); clear E
+  end; lchain2.
+Qed.
+Lemma LG_handle_write s h off cnt stable data : LG s (fst (handle_write s h off cnt stable data)).
+Proof. unfold handle_write. lhandler. Qed.
+Lemma LG_handle_remove s h n : LG s (fst (handle_remove s h n)).
+Proof. unfold handle_remove. lhandler. Qed.
+Lemma LG_handle_rmdir s h n : LG s (fst (handle_rmdir s h n)).
+Proof. unfold handle_rmdir. lhandler. Qed.
+Lemma LG_handle_rename s h1 n1 h2 n2 : LG s (fst (handle_rename s h1 n1 h2 n2)).
+Proof. unfold handle_rename. lhandler. Qed.
+
+(* ---------- SETATTR: no Chown when the recorded owner and group do not change ---------- *)
+Lemma LG_srv_setattr s h p cur new :
+  (na_uid new =? na_uid cur) && (na_gid new =? na_gid cur) = true -> LG s (fst (srv_setattr s h p cur new)).
+Proof. intros H. unfold srv_setattr. cbv zeta. rewrite H. ldes; lcollect2; lchain2. Qed.
+
+Lemma LG_handle_setattr s c h sa g : (c_uid c =? 0) = false -> LG s (fst (handle_setattr s c h sa g)).
+Proof.
+  intros Hnr. unfold handle_setattr.
+  destruct (ro (conf s)); [apply LG_refl|].
+  match goal with |- context [if ?b then (s, fail_wcc NFSERR_INVAL) else _] => destruct b; [apply LG_refl|] end.
+  destruct (lookup_node s h) as [[p a0]|]; [|apply LG_refl].
+  destruct (getattr_h s h p) as [s1 pre] eqn:E1. lcollect2. destruct pre as [prea|e]; [|lchain].
+  match goal with |- context [if ?b then (s1, fail_wcc NFSERR_NOT_SYNC) else _] => destruct b; [lchain|] end.
+  cbv zeta.
+  match goal with |- context [match snd ?rs with Some _ => _ | None => _ end] =>
+    assert (RS : LG s1 (fst rs)) by (ldes; lcollect2; lchain2); destruct rs as [s4 o] end.
+  cbn [fst snd] in *. destruct o as [e|]; [lchain|].
+  destruct (node_get s4 h) as [cur|]; [|lchain].
+  rewrite Hnr.
+  match goal with |- context [srv_setattr ?s ?h ?p ?cur ?new] =>
+    assert (RA : LG s (fst (srv_setattr s h p cur new)))
+      by (apply LG_srv_setattr; cbn [na_uid na_gid]; destruct (s_uid sa); destruct (s_gid sa); rewrite !N.eqb_refl; reflexivity);
+    destruct (srv_setattr s h p cur new) as [s5 r] end.
+  cbn [fst] in RA. ldes; lcollect2; lchain2.
+Qed.
+
+(* ---------- CREATE / MKDIR / SYMLINK: one Chown / Lchown, with these arguments ---------- *)
+Lemma LG_srv_create s d n perm uid gid :
+  Q (bc2 BChown (d ++ [n]) [] uid gid) -> LG s (fst (srv_create s d n perm uid gid)).
+Proof. intros H. unfold srv_create. cbv zeta. ldes; lcollect2; lchain2. Qed.
+
+Definition eff_uid (c : cred) (use : bool) (sa : sattr) : N :=
+  if use then match s_uid sa with Some u => if c_uid c =? 0 then u else c_uid c | None => c_uid c end else c_uid c.
+Definition eff_gid (c : cred) (use : bool) (sa : sattr) : N :=
+  if use then match s_gid sa with Some g => if c_uid c =? 0 then g else c_gid c | None => c_gid c end else c_gid c.
+
+Lemma LG_handle_create s c h n how sa :
+  (forall p, Q (bc2 BChown p [] (eff_uid c ((how =? 0) || (how =? 1)) sa) (eff_gid c ((how =? 0) || (how =? 1)) sa))) ->
+  LG s (fst (handle_create s c h n how sa)).
+Proof.
+  intros H. unfold handle_create. cbv zeta.
+  fold (eff_uid c ((how =? 0) || (how =? 1)) sa). fold (eff_gid c ((how =? 0) || (how =? 1)) sa). ldes; lcollect2;
+  repeat match goal with
+  | E : srv_create ?s ?d ?n ?perm ?uid ?gid = (_, _) |- _ =>
+      lfact E (LG s (fst (srv_create s d n perm uid gid))) ltac:(apply LG_srv_create; apply H); clear E
+  end; lchain2.
+Qed.
+Lemma LG_handle_mkdir s c h n sa :
+  (forall p, Q (bc2 BChown p [] (eff_uid c true sa) (eff_gid c true sa))) -> LG s (fst (handle_mkdir s c h n sa)).
+Proof.
+  intros H. unfold handle_mkdir. cbv zeta. fold (eff_uid c true sa). fold (eff_gid c true sa).
+  ldes; lcollect2; lchain2.
+Qed.
+Lemma LG_handle_symlink s c h n sa t :
+  (forall p, Q (bc2 BLchown p [] (eff_uid c true sa) (eff_gid c true sa))) -> LG s (fst (handle_symlink s c h n sa t)).
+Proof.
+  intros H. unfold handle_symlink. cbv zeta. fold (eff_uid c true sa). fold (eff_gid c true sa).
+  ldes; lcollect2; lchain2.
+Qed.
+End Log.
+
+(* ---------- step ---------- *)
+Definition no_chown (b : bcall) : Prop := is_chown b = false.
+Definition chown_args (u g : N) (b : bcall) : Prop := is_chown b = true -> b_a b = u /\ b_b b = g.
+Lemma no_chown_HQ : forall b, is_chown b = false -> no_chown b.
+Proof. intros b H. exact H. Qed.
+Lemma chown_args_HQ u g : forall b, is_chown b = false -> chown_args u g b.
+Proof. intros b H F. rewrite H in F. discriminate F. Qed.
+Lemma chown_args_bc2 o p u g : chown_args u g (bc2 o p [] u g).
+Proof. intros _. split; reflexivity. Qed.
+
+(* what a Chown / Lchown call in the log of a request looks like *)
+Definition chown_spec (c : cred) (r : req) (b : bcall) : Prop :=
+  match r with
+  | RCreate _ _ how sa =>
+      b_a b = eff_uid c ((how =? 0) || (how =? 1)) sa /\ b_b b = eff_gid c ((how =? 0) || (how =? 1)) sa
+  | RMkdir _ _ sa | RSymlink _ _ sa _ => b_a b = eff_uid c true sa /\ b_b b = eff_gid c true sa
+  | RSetattr _ _ _ => c_uid c = 0
+  | _ => False
+  end.
+
+Lemma step_chown s c r b : In b (blog (fst (step s c r))) -> chown_like b -> chown_spec c r b.
+Proof.
+  intros Hin Hc. apply is_chown_iff in Hc.
+  assert (K1 : forall s', LG no_chown (clear_log s) s' -> In b (blog s') -> False).
+  { intros s' L Hi. destruct (L b Hi) as [F|F]; [destruct F|]. unfold no_chown in F. rewrite F in Hc. discriminate Hc. }
+  assert (K2 : forall u g s', LG (chown_args u g) (clear_log s) s' -> In b (blog s') -> b_a b = u /\ b_b b = g).
+  { intros u g s' L Hi. destruct (L b Hi) as [F|F]; [destruct F|]. exact (F Hc). }
+  unfold step in Hin. destruct (garbage_reply (clear_log s) r) as [o|]; [destruct Hin|].
+  destruct r; cbn [chown_spec]; cbn [fst] in Hin;
+    try (destruct Hin; fail);
+    try (exfalso; eapply K1; [|exact Hin]; first
+      [ apply LG_handle_getattr | apply LG_handle_lookup | apply LG_handle_access | apply LG_handle_readlink
+      | apply LG_handle_read | apply LG_handle_write | apply LG_handle_remove | apply LG_handle_rmdir
+      | apply LG_handle_rename | apply LG_handle_readdir | apply LG_handle_readdirplus | apply LG_handle_fsx
+      | apply LG_handle_commit | apply LG_handle_mnt ]; exact no_chown_HQ).
+  - (* SETATTR *) destruct (c_uid c =? 0) eqn:E; [apply N.eqb_eq in E; exact E|].
+    exfalso. eapply K1; [|exact Hin]. apply LG_handle_setattr; [exact no_chown_HQ|exact E].
+  - (* CREATE *) eapply K2; [|exact Hin]. apply LG_handle_create; [apply chown_args_HQ|]. intros p. apply chown_args_bc2.
+  - (* MKDIR *) eapply K2; [|exact Hin]. apply LG_handle_mkdir; [apply chown_args_HQ|]. intros p. apply chown_args_bc2.
+  - (* SYMLINK *) eapply K2; [|exact Hin]. apply LG_handle_symlink; [apply chown_args_HQ|]. intros p. apply chown_args_bc2.
+Qed.
+
+Lemma eff_uid_nonroot c use sa : c_uid c <> 0 -> eff_uid c use sa = c_uid c.
+Proof. intros H. apply N.eqb_neq in H. unfold eff_uid. rewrite H. destruct use, (s_uid sa); reflexivity. Qed.
+Lemma eff_gid_nonroot c use sa : c_uid c <> 0 -> eff_gid c use sa = c_gid c.
+Proof. intros H. apply N.eqb_neq in H. unfold eff_gid. rewrite H. destruct use, (s_gid sa); reflexivity. Qed.
+
+(* a non-root caller: every Chown / Lchown carries the caller's own ids; SETATTR issues none *)
+Lemma step_chown_nonroot s c r b :
+  c_uid c <> 0 -> In b (blog (fst (step s c r))) -> chown_like b -> b_a b = c_uid c /\ b_b b = c_gid c.
+Proof.
+  intros Hnr Hin Hc. pose proof (step_chown s c r b Hin Hc) as S.
+  destruct r; cbn [chown_spec] in S; try contradiction;
+    rewrite ?eff_uid_nonroot, ?eff_gid_nonroot in S by exact Hnr; exact S.
+Qed.
+Lemma step_setattr_nochown s c h sa g b :
+  c_uid c <> 0 -> In b (blog (fst (step s c (RSetattr h sa g)))) -> ~ chown_like b.
+Proof. intros Hnr Hin Hc. exact (Hnr (step_chown s c _ b Hin Hc)). Qed.
+(* nothing but SETATTR / CREATE / MKDIR / SYMLINK ever calls Chown or Lchown, whoever asks *)
+Lemma step_chown_only s c r b : In b (blog (fst (step s c r))) -> chown_like b ->
+  match r with RSetattr _ _ _ | RCreate _ _ _ _ | RMkdir _ _ _ | RSymlink _ _ _ _ => True | _ => False end.
+Proof. intros Hin Hc. pose proof (step_chown s c r b Hin Hc) as S. destruct r; cbn [chown_spec] in S; auto. Qed.
+
+(* root: the sattr3 ids when given (CREATE: only UNCHECKED / GUARDED carry a sattr3), else root's own *)
+Definition root_uid (c : cred) (sa : sattr) : N := match s_uid sa with Some u => u | None => c_uid c end.
+Definition root_gid (c : cred) (sa : sattr) : N := match s_gid sa with Some g => g | None => c_gid c end.
+Lemma step_chown_root s c r b :
+  c_uid c = 0 -> In b (blog (fst (step s c r))) -> chown_like b ->
+  match r with
+  | RCreate _ _ how sa =>
+      if (how =? 0) || (how =? 1) then b_a b = root_uid c sa /\ b_b b = root_gid c sa else b_a b = c_uid c /\ b_b b = c_gid c
+  | RMkdir _ _ sa | RSymlink _ _ sa _ => b_a b = root_uid c sa /\ b_b b = root_gid c sa
+  | _ => True
+  end.
+Proof.
+  intros Hr Hin Hc. pose proof (step_chown s c r b Hin Hc) as S.
+  destruct r; cbn [chown_spec] in S; auto; unfold eff_uid, eff_gid, root_uid, root_gid in *; rewrite Hr in *;
+    cbn [N.eqb] in S; try destruct ((how =? 0) || (how =? 1)); exact S.
+Qed.
+
+(* SETATTR of a non-root caller does not depend on the uid / gid fields of the request at all *)
+Definition drop_ids (sa : sattr) : sattr :=
+  {| s_mode := s_mode sa; s_uid := None; s_gid := None; s_size := s_size sa;
+     s_atime := s_atime sa; s_atime_v := s_atime_v sa; s_mtime := s_mtime sa; s_mtime_v := s_mtime_v sa |}.
+Lemma step_setattr_ids_ignored s c h sa g :
+  c_uid c <> 0 -> step s c (RSetattr h sa g) = step s c (RSetattr h (drop_ids sa) g).
+Proof.
+  intros Hnr. apply N.eqb_neq in Hnr. unfold step. cbn [garbage_reply]. unfold handle_setattr.
+  cbn [drop_ids s_mode s_uid s_gid s_size s_atime s_atime_v s_mtime s_mtime_v]. rewrite Hnr.
+  destruct (s_uid sa), (s_gid sa); reflexivity.
+Qed.
